@@ -4,17 +4,27 @@
 (* sdk/trace/batch_span_processor.go; see DESIGN.md Appendix A.1.             *)
 (*                                                                            *)
 (* Processes: producers p (span.End -> OnEnd), the worker w (processQueue,    *)
-(* then drainQueue), flushers f (ForceFlush), stoppers s (Shutdown).          *)
+(* then drainQueue), flushers f (ForceFlush) each with an export helper       *)
+(* goroutine (`go func() { wait <- bsp.exportSpans(ctx) }()`), stoppers s     *)
+(* (Shutdown) and the helper goroutine of the sync.Once body (close(stopCh),  *)
+(* stopWait.Wait, exporter.Shutdown).  Environment: the exporter's outcome    *)
+(* (ok / error / timeout = gives up only when its ctx is done) and the expiry *)
+(* of the contexts of the callers in Expiring.                                *)
 (* Monitor variables (mon) observe only API-level facts and carry the         *)
 (* contract of the property; they never influence the protocol variables.     *)
 EXTENDS Naturals, Sequences, FiniteSets, TLC
 
 CONSTANTS Producers, SpansPer, QCap, MaxBatch, Blocking, Flushers, Stoppers,
-          AllowKnown   \* TRUE: admit the known deviations D1 and D4 of the code (see Contract)
+          AllowKnown,    \* TRUE: admit the known deviations of the code (see Contract)
+          CodeShape,     \* "current" | "pre-ada0bc0" (blocking sends did not look at stopCh: D2/D3)
+          Outcomes,      \* subset of {"ok", "error", "timeout"}: what an ExportSpans call may answer
+          ExportTimeout, \* BOOLEAN: o.ExportTimeout > 0 (exportSpans derives a ctx with deadline)
+          Expiring,      \* subset of Flushers \cup Stoppers: callers whose ctx may become done during the call
+          ResetOnFailure \* TRUE = the code (batch reset whatever ExportSpans answers); FALSE: model-level mutation
 
 VARIABLES queue,     \* the channel: sequence of Span(id) / Marker(f)
           batch,     \* bsp.batch (sequence of ids)
-          mutex,     \* batchMutex holder: "none" | "w" | flusher
+          mutex,     \* batchMutex holder: "none" | "w" | flusher (its export helper)
           dropped,   \* bsp.dropped counter
           stopped,   \* bsp.stopped
           stopCh,    \* closed?
@@ -23,35 +33,54 @@ VARIABLES queue,     \* the channel: sequence of Span(id) / Marker(f)
           pidx,      \* producer -> index of the span it is ending
           wret,      \* where the worker continues after an export
           wtmp,      \* span the worker just dequeued
+          hx,        \* flusher -> pc of its export helper: "none" | "lock" | "exporting" | "done"
+          hres,      \* flusher -> what its helper's exportSpans returned: "" | "export"
+          hs,        \* pc of the Shutdown helper goroutine: "none" | "close" | "wait" | "done"
+          expired,   \* callers whose ctx is done
+          err,       \* caller -> error class its call returns: "" | "ctx" | "export"
           mon        \* monitor record
-vars == <<queue, batch, mutex, dropped, stopped, stopCh, flushed, pc, pidx, wret, wtmp, mon>>
-proto == <<queue, batch, mutex, dropped, stopped, stopCh, flushed, pidx, wret, wtmp>>
+vars == <<queue, batch, mutex, dropped, stopped, stopCh, flushed, pc, pidx, wret, wtmp, hx, hres, hs, expired, err, mon>>
+proto == <<queue, batch, mutex, dropped, stopped, stopCh, flushed, pidx, wret, wtmp, hx, hres, hs, expired, err>>
 
 Ids == Producers \X (1..SpansPer)
 Span(id) == [t |-> "span", id |-> id]
 Marker(f) == [t |-> "marker", f |-> f]
 Procs == Producers \cup Flushers \cup Stoppers \cup {"w"}
+Callers == Flushers \cup Stoppers
+Current == CodeShape = "current"
 
 Init ==
   /\ queue = <<>> /\ batch = <<>> /\ mutex = "none" /\ dropped = 0
   /\ stopped = FALSE /\ stopCh = FALSE /\ flushed = [f \in Flushers |-> FALSE]
   /\ pc = [x \in Procs |-> IF x = "w" THEN "select" ELSE "idle"]
   /\ pidx = [p \in Producers |-> 1] /\ wret = "select" /\ wtmp = <<>>
-  /\ mon = [inflight |-> <<>>, handed |-> [id \in Ids |-> 0], droppedIds |-> {}, ignoredIds |-> {},
+  /\ hx = [f \in Flushers |-> "none"] /\ hres = [f \in Flushers |-> ""] /\ hs = "none"
+  /\ expired = {} /\ err = [c \in Callers |-> ""]
+  /\ mon = [inflight |-> <<>>, handed |-> [id \in Ids |-> 0], droppedIds |-> {}, ignoredIds |-> {}, abandonedIds |-> {},
             returnedEnd |-> {}, raced |-> {}, snapF |-> [f \in Flushers |-> {}], snapS |-> [s \in Stoppers |-> {}],
-            sdCalled |-> FALSE, shutRet |-> FALSE, early |-> [f \in Flushers |-> FALSE], bad |-> {}]
+            sdCalled |-> FALSE, shutRet |-> FALSE, sdRetErr |-> FALSE, expShut |-> FALSE,
+            early |-> [f \in Flushers |-> FALSE], nomarker |-> [f \in Flushers |-> FALSE], bad |-> {}]
 
 Go(x, l) == pc' = [pc EXCEPT ![x] = l]
 
 (* ------------------------------------------------------------ exporter *)
-(* ExportSpans is entered with the batch; result ok/error/timeout all reset   *)
-(* the batch, as the code does, so the outcome is not modelled further.       *)
-ExportBegin(m) ==
+(* ExportSpans is entered with the batch (that is the hand-over the statement *)
+(* talks about, whatever the exporter answers).  `who` = "w" or the flusher   *)
+(* whose helper exports: its ctx is the caller's, so it carries a deadline if *)
+(* the caller's does, or if ExportTimeout > 0.                                *)
+HasDeadline(who) == ExportTimeout \/ who \in Expiring
+ExportBegin(m, who) ==
   [m EXCEPT !.inflight = batch,
             !.handed = [id \in Ids |-> @[id] + Cardinality({i \in 1..Len(batch) : batch[i] = id})],
             !.bad = @ \cup (IF m.inflight # <<>> THEN {"concurrent-export"} ELSE {})
                       \cup (IF Len(batch) > MaxBatch THEN {"batch-too-large"} ELSE {})
-                      \cup (IF m.shutRet THEN {"export-after-shutdown"} ELSE {})]
+                      \cup (IF ExportTimeout /\ ~HasDeadline(who) THEN {"export-without-deadline"} ELSE {})
+                      \cup (IF m.expShut THEN {"export-after-shutdown"}
+                            ELSE IF m.sdRetErr THEN {"D5-drain-outlives-expired-shutdown"}
+                            ELSE IF m.shutRet THEN {"export-after-shutdown"} ELSE {})]
+(* the answers an export by `who` may get now: "timeout" = the exporter waits for ctx.Done() *)
+Answers(who) == {o \in Outcomes : o = "timeout" => (ExportTimeout \/ who \in expired)}
+AfterExport(o) == IF o = "ok" \/ ResetOnFailure THEN <<>> ELSE batch
 
 (* ------------------------------------------------------------ producers *)
 PCall(p) == /\ pc[p] = "idle" /\ pidx[p] <= SpansPer /\ Go(p, "check")
@@ -62,26 +91,31 @@ PCheck(p) == /\ pc[p] = "check"
                        /\ mon' = [mon EXCEPT !.ignoredIds = @ \cup {<<p, pidx[p]>>}]
                   ELSE /\ Go(p, "enq") /\ UNCHANGED mon
              /\ UNCHANGED proto
+(* enqueueDrop: send, or `default:` when the send is not ready.  enqueueBlockOnQueueFull: a select over   *)
+(* the send and (current shape) stopCh -- when both are ready Go picks either one.                        *)
 PEnq(p) == /\ pc[p] = "enq"
            /\ LET id == <<p, pidx[p]>> IN
-              IF Len(queue) < QCap
-                THEN /\ queue' = Append(queue, Span(id)) /\ UNCHANGED <<dropped, mon>>
-                ELSE /\ ~Blocking            \* blocking mode: the send blocks (action disabled)
-                     /\ dropped' = dropped + 1
-                     /\ mon' = [mon EXCEPT !.droppedIds = @ \cup {id}]
-                     /\ UNCHANGED queue
+              \/ /\ Len(queue) < QCap
+                 /\ queue' = Append(queue, Span(id)) /\ UNCHANGED <<dropped, mon>>
+              \/ /\ ~Blocking /\ Len(queue) >= QCap
+                 /\ dropped' = dropped + 1
+                 /\ mon' = [mon EXCEPT !.droppedIds = @ \cup {id}]
+                 /\ UNCHANGED queue
+              \/ /\ Blocking /\ Current /\ stopCh       \* abandoned: neither enqueued nor counted
+                 /\ mon' = [mon EXCEPT !.abandonedIds = @ \cup {id}]
+                 /\ UNCHANGED <<queue, dropped>>
            /\ Go(p, "ret")
-           /\ UNCHANGED <<batch, mutex, stopped, stopCh, flushed, pidx, wret, wtmp>>
+           /\ UNCHANGED <<batch, mutex, stopped, stopCh, flushed, pidx, wret, wtmp, hx, hres, hs, expired, err>>
 PRet(p) == /\ pc[p] = "ret" /\ Go(p, "idle")
            /\ mon' = [mon EXCEPT !.returnedEnd = @ \cup {<<p, pidx[p]>>},
                                  !.raced = IF mon.sdCalled THEN @ \cup {<<p, pidx[p]>>} ELSE @]
            /\ pidx' = [pidx EXCEPT ![p] = @ + 1]
-           /\ UNCHANGED <<queue, batch, mutex, dropped, stopped, stopCh, flushed, wret, wtmp>>
+           /\ UNCHANGED <<queue, batch, mutex, dropped, stopped, stopCh, flushed, wret, wtmp, hx, hres, hs, expired, err>>
 
 (* ------------------------------------------------------------ worker *)
 WStop == /\ pc["w"] = "select" /\ stopCh /\ Go("w", "drain") /\ UNCHANGED <<proto, mon>>
 WTimer == /\ pc["w"] = "select" /\ batch # <<>> /\ Go("w", "explock") /\ wret' = "select"
-          /\ UNCHANGED <<queue, batch, mutex, dropped, stopped, stopCh, flushed, pidx, wtmp, mon>>
+          /\ UNCHANGED <<queue, batch, mutex, dropped, stopped, stopCh, flushed, pidx, wtmp, hx, hres, hs, expired, err, mon>>
 WDeq == /\ pc["w"] \in {"select", "drain"} /\ queue # <<>>
         /\ LET it == Head(queue) IN
            /\ queue' = Tail(queue)
@@ -90,7 +124,7 @@ WDeq == /\ pc["w"] \in {"select", "drain"} /\ queue # <<>>
                      /\ UNCHANGED <<pc, wtmp>>
                 ELSE /\ wtmp' = it.id /\ Go("w", IF pc["w"] = "select" THEN "append" ELSE "dappend")
                      /\ UNCHANGED flushed
-        /\ UNCHANGED <<batch, mutex, dropped, stopped, stopCh, pidx, wret, mon>>
+        /\ UNCHANGED <<batch, mutex, dropped, stopped, stopCh, pidx, wret, hx, hres, hs, expired, err, mon>>
 WAppend == /\ pc["w"] \in {"append", "dappend"} /\ mutex = "none"
            /\ batch' = Append(batch, wtmp)
            /\ IF pc["w"] = "append"
@@ -98,102 +132,169 @@ WAppend == /\ pc["w"] \in {"append", "dappend"} /\ mutex = "none"
                                                  ELSE (Go("w", "select") /\ UNCHANGED wret))
                 ELSE (IF Len(batch') = MaxBatch THEN (Go("w", "explock") /\ wret' = "drain")
                                                 ELSE (Go("w", "drain") /\ UNCHANGED wret))
-           /\ UNCHANGED <<queue, mutex, dropped, stopped, stopCh, flushed, pidx, wtmp, mon>>
+           /\ UNCHANGED <<queue, mutex, dropped, stopped, stopCh, flushed, pidx, wtmp, hx, hres, hs, expired, err, mon>>
 WDrainEmpty == /\ pc["w"] = "drain" /\ queue = <<>> /\ Go("w", "explock") /\ wret' = "done"
-               /\ UNCHANGED <<queue, batch, mutex, dropped, stopped, stopCh, flushed, pidx, wtmp, mon>>
+               /\ UNCHANGED <<queue, batch, mutex, dropped, stopped, stopCh, flushed, pidx, wtmp, hx, hres, hs, expired, err, mon>>
 WExpLock == /\ pc["w"] = "explock" /\ mutex = "none"
             /\ IF batch = <<>>
                  THEN (Go("w", wret) /\ UNCHANGED <<mutex, mon>>)
-                 ELSE (mutex' = "w" /\ Go("w", "exporting") /\ mon' = ExportBegin(mon))
-            /\ UNCHANGED <<queue, batch, dropped, stopped, stopCh, flushed, pidx, wret, wtmp>>
-WExpEnd == /\ pc["w"] = "exporting"
-           /\ batch' = <<>> /\ mutex' = "none" /\ Go("w", wret)
-           /\ mon' = [mon EXCEPT !.inflight = <<>>]
-           /\ UNCHANGED <<queue, dropped, stopped, stopCh, flushed, pidx, wret, wtmp>>
+                 ELSE (mutex' = "w" /\ Go("w", "exporting") /\ mon' = ExportBegin(mon, "w"))
+            /\ UNCHANGED <<queue, batch, dropped, stopped, stopCh, flushed, pidx, wret, wtmp, hx, hres, hs, expired, err>>
+(* every answer resets the batch; the worker only reports an error to otel.Handle *)
+WExpEnd(o) == /\ pc["w"] = "exporting" /\ o \in Answers("w")
+              /\ batch' = AfterExport(o) /\ mutex' = "none" /\ Go("w", wret)
+              /\ mon' = [mon EXCEPT !.inflight = <<>>]
+              /\ UNCHANGED <<queue, dropped, stopped, stopCh, flushed, pidx, wret, wtmp, hx, hres, hs, expired, err>>
 
 (* ------------------------------------------------------------ flushers *)
 Missing(S) == {id \in S : mon.handed[id] = 0 /\ id \notin mon.droppedIds /\ id \notin mon.ignoredIds}
 FCall(f) == /\ pc[f] = "idle" /\ Go(f, "check")
             /\ mon' = [mon EXCEPT !.snapF[f] = mon.returnedEnd]
             /\ UNCHANGED proto
+FEarly(f) == Go(f, "ret") /\ mon' = [mon EXCEPT !.early[f] = TRUE]
 FCheck(f) == /\ pc[f] = "check"
-             /\ IF stopped THEN (Go(f, "ret") /\ mon' = [mon EXCEPT !.early[f] = TRUE])
-                           ELSE (Go(f, "enq") /\ UNCHANGED mon)
-             /\ UNCHANGED proto
-FEnq(f) == /\ pc[f] = "enq" /\ Len(queue) < QCap      \* the marker send blocks while the queue is full
-           /\ queue' = Append(queue, Marker(f)) /\ Go(f, "wait")
-           /\ UNCHANGED <<batch, mutex, dropped, stopped, stopCh, flushed, pidx, wret, wtmp, mon>>
-FWaitStop(f) == /\ pc[f] = "wait" /\ stopCh /\ Go(f, "ret")
-                /\ mon' = [mon EXCEPT !.early[f] = TRUE]
-                /\ UNCHANGED proto
-FWaitFlushed(f) == /\ pc[f] = "wait" /\ flushed[f] /\ Go(f, "explock") /\ UNCHANGED <<proto, mon>>
-FExpLock(f) == /\ pc[f] = "explock" /\ mutex = "none"
+             /\ IF f \in expired THEN (Go(f, "ret") /\ err' = [err EXCEPT ![f] = "ctx"] /\ UNCHANGED mon)
+                ELSE IF stopped THEN (FEarly(f) /\ UNCHANGED err)
+                ELSE (Go(f, "enq") /\ UNCHANGED <<mon, err>>)
+             /\ UNCHANGED <<queue, batch, mutex, dropped, stopped, stopCh, flushed, pidx, wret, wtmp, hx, hres, hs, expired>>
+(* the marker send is a select over the send, stopCh (current shape) and ctx.Done(): when the marker   *)
+(* was not enqueued the current shape returns nil if `stopped` is set; otherwise (ctx done) the code   *)
+(* goes on to export the batch as it is -- without having waited for the spans queued before it (D6).  *)
+FEnq(f) == /\ pc[f] = "enq"
+           /\ \/ /\ Len(queue) < QCap
+                 /\ queue' = Append(queue, Marker(f)) /\ Go(f, "wait") /\ UNCHANGED <<hx, mon>>
+              \/ /\ Current /\ stopCh
+                 /\ FEarly(f) /\ UNCHANGED <<queue, hx>>
+              \/ /\ f \in expired
+                 /\ IF Current /\ stopped
+                      THEN (FEarly(f) /\ UNCHANGED <<queue, hx>>)
+                      ELSE /\ Go(f, "waitexp") /\ hx' = [hx EXCEPT ![f] = "lock"]
+                           /\ mon' = [mon EXCEPT !.nomarker[f] = TRUE] /\ UNCHANGED queue
+           /\ UNCHANGED <<batch, mutex, dropped, stopped, stopCh, flushed, pidx, wret, wtmp, hres, hs, expired, err>>
+FWaitStop(f) == /\ pc[f] = "wait" /\ stopCh /\ FEarly(f) /\ UNCHANGED proto
+FWaitFlushed(f) == /\ pc[f] = "wait" /\ flushed[f] /\ Go(f, "waitexp") /\ hx' = [hx EXCEPT ![f] = "lock"]
+                   /\ UNCHANGED <<queue, batch, mutex, dropped, stopped, stopCh, flushed, pidx, wret, wtmp, hres, hs, expired, err, mon>>
+FWaitCtx(f) == /\ pc[f] = "wait" /\ f \in expired /\ Go(f, "ret") /\ err' = [err EXCEPT ![f] = "ctx"]
+               /\ UNCHANGED <<queue, batch, mutex, dropped, stopped, stopCh, flushed, pidx, wret, wtmp, hx, hres, hs, expired, mon>>
+(* the export helper goroutine of flusher f *)
+HExpLock(f) == /\ hx[f] = "lock" /\ mutex = "none"
                /\ IF batch = <<>>
-                    THEN (Go(f, "ret") /\ UNCHANGED <<mutex, mon>>)
-                    ELSE (mutex' = f /\ Go(f, "exporting") /\ mon' = ExportBegin(mon))
-               /\ UNCHANGED <<queue, batch, dropped, stopped, stopCh, flushed, pidx, wret, wtmp>>
-FExpEnd(f) == /\ pc[f] = "exporting"
-              /\ batch' = <<>> /\ mutex' = "none" /\ Go(f, "ret")
-              /\ mon' = [mon EXCEPT !.inflight = <<>>]
-              /\ UNCHANGED <<queue, dropped, stopped, stopCh, flushed, pidx, wret, wtmp>>
+                    THEN (hx' = [hx EXCEPT ![f] = "done"] /\ UNCHANGED <<mutex, mon>>)
+                    ELSE (mutex' = f /\ hx' = [hx EXCEPT ![f] = "exporting"] /\ mon' = ExportBegin(mon, f))
+               /\ UNCHANGED <<queue, batch, dropped, stopped, stopCh, flushed, pc, pidx, wret, wtmp, hres, hs, expired, err>>
+HExpEnd(f, o) == /\ hx[f] = "exporting" /\ o \in Answers(f)
+                 /\ batch' = AfterExport(o) /\ mutex' = "none" /\ hx' = [hx EXCEPT ![f] = "done"]
+                 /\ hres' = [hres EXCEPT ![f] = IF o = "ok" THEN "" ELSE "export"]
+                 /\ mon' = [mon EXCEPT !.inflight = <<>>]
+                 /\ UNCHANGED <<queue, dropped, stopped, stopCh, flushed, pc, pidx, wret, wtmp, hs, expired, err>>
+(* the caller waits for its helper or for its ctx *)
+FExpDone(f) == /\ pc[f] = "waitexp" /\ hx[f] = "done" /\ Go(f, "ret") /\ err' = [err EXCEPT ![f] = hres[f]]
+               /\ UNCHANGED <<queue, batch, mutex, dropped, stopped, stopCh, flushed, pidx, wret, wtmp, hx, hres, hs, expired, mon>>
+FExpCtx(f) == /\ pc[f] = "waitexp" /\ f \in expired /\ Go(f, "ret") /\ err' = [err EXCEPT ![f] = "ctx"]
+              /\ UNCHANGED <<queue, batch, mutex, dropped, stopped, stopCh, flushed, pidx, wret, wtmp, hx, hres, hs, expired, mon>>
 FRet(f) == /\ pc[f] = "ret" /\ Go(f, "done")
            /\ mon' = [mon EXCEPT !.bad = @ \cup
-                 (IF Missing(mon.snapF[f]) = {} THEN {}
-                  ELSE IF mon.early[f] THEN {"D1-flush-during-shutdown"} ELSE {"flush-missed"})]
+                 (IF err[f] # "" \/ Missing(mon.snapF[f]) = {} THEN {}
+                  ELSE IF mon.early[f] THEN {"D1-flush-during-shutdown"}
+                  ELSE IF mon.nomarker[f] THEN {"D6-flush-nil-without-marker"} ELSE {"flush-missed"})]
            /\ UNCHANGED proto
 
 (* ------------------------------------------------------------ stoppers *)
-(* sync.Once: the first caller runs the body, later callers wait until it is done *)
+(* sync.Once: the first caller runs the body, later callers wait until the body has returned and then *)
+(* return nil (their own ctx is never looked at).  The body sets the flag, starts the helper goroutine *)
+(* and waits for it or for ctx.Done().                                                                 *)
 SCall(s) == /\ pc[s] = "idle"
             /\ mon' = [mon EXCEPT !.snapS[s] = mon.returnedEnd, !.sdCalled = TRUE]
             /\ Go(s, IF \E o \in Stoppers : pc[o] \notin {"idle", "oncewait"} THEN "oncewait" ELSE "set")
             /\ UNCHANGED proto
-SSet(s) == /\ pc[s] = "set" /\ stopped' = TRUE /\ Go(s, "close")
-           /\ UNCHANGED <<queue, batch, mutex, dropped, stopCh, flushed, pidx, wret, wtmp, mon>>
-SClose(s) == /\ pc[s] = "close" /\ stopCh' = TRUE /\ Go(s, "wait")
-             /\ UNCHANGED <<queue, batch, mutex, dropped, stopped, flushed, pidx, wret, wtmp, mon>>
-SWait(s) == /\ pc[s] = "wait" /\ pc["w"] = "done" /\ Go(s, "ret") /\ UNCHANGED <<proto, mon>>
-SOnceWait(s) == /\ pc[s] = "oncewait" /\ \E o \in Stoppers : pc[o] = "done"
+SSet(s) == /\ pc[s] = "set" /\ stopped' = TRUE /\ Go(s, "waitdone") /\ hs' = "close"
+           /\ UNCHANGED <<queue, batch, mutex, dropped, stopCh, flushed, pidx, wret, wtmp, hx, hres, expired, err, mon>>
+HClose == /\ hs = "close" /\ stopCh' = TRUE /\ hs' = "wait"
+          /\ UNCHANGED <<queue, batch, mutex, dropped, stopped, flushed, pc, pidx, wret, wtmp, hx, hres, expired, err, mon>>
+HWait == /\ hs = "wait" /\ pc["w"] = "done" /\ hs' = "done"       \* stopWait.Wait(); exporter.Shutdown(ctx); close(wait)
+         /\ mon' = [mon EXCEPT !.expShut = TRUE]
+         /\ UNCHANGED <<queue, batch, mutex, dropped, stopped, stopCh, flushed, pc, pidx, wret, wtmp, hx, hres, expired, err>>
+SWait(s) == /\ pc[s] = "waitdone" /\ hs = "done" /\ Go(s, "ret") /\ UNCHANGED <<proto, mon>>
+SCtx(s) == /\ pc[s] = "waitdone" /\ s \in expired /\ Go(s, "ret") /\ err' = [err EXCEPT ![s] = "ctx"]
+           /\ UNCHANGED <<queue, batch, mutex, dropped, stopped, stopCh, flushed, pidx, wret, wtmp, hx, hres, hs, expired, mon>>
+SOnceWait(s) == /\ pc[s] = "oncewait" /\ \E o \in Stoppers : pc[o] \in {"ret", "done"}
                 /\ Go(s, "ret") /\ UNCHANGED <<proto, mon>>
 SRet(s) == /\ pc[s] = "ret" /\ Go(s, "done")
-           /\ mon' = [mon EXCEPT !.shutRet = TRUE,
+           /\ mon' = IF err[s] # "" THEN [mon EXCEPT !.sdRetErr = TRUE]
+                     ELSE [mon EXCEPT !.shutRet = TRUE,
                                  !.bad = @ \cup (IF Missing(mon.snapS[s]) = {} THEN {}
+                                                 ELSE IF mon.sdRetErr /\ ~mon.expShut
+                                                      THEN {"D5-drain-outlives-expired-shutdown"}
                                                  ELSE IF Missing(mon.snapS[s]) \subseteq mon.raced
                                                       THEN {"D4-enqueue-after-drain"} ELSE {"shutdown-missed"})]
            /\ UNCHANGED proto
 
-Next == \/ \E p \in Producers : PCall(p) \/ PCheck(p) \/ PEnq(p) \/ PRet(p)
-        \/ WStop \/ WTimer \/ WDeq \/ WAppend \/ WDrainEmpty \/ WExpLock \/ WExpEnd
-        \/ \E f \in Flushers : FCall(f) \/ FCheck(f) \/ FEnq(f) \/ FWaitStop(f) \/ FWaitFlushed(f)
-                               \/ FExpLock(f) \/ FExpEnd(f) \/ FRet(f)
-        \/ \E s \in Stoppers : SCall(s) \/ SSet(s) \/ SClose(s) \/ SWait(s) \/ SOnceWait(s) \/ SRet(s)
+(* ------------------------------------------------------------ environment: caller contexts *)
+(* only where the code looks at the ctx (an already-cancelled ctx = expiry before the first check) *)
+CtxExpire(c) == /\ c \in Expiring \ expired
+                /\ pc[c] \in (IF c \in Flushers THEN {"check", "enq", "wait", "waitexp"} ELSE {"waitdone"})
+                /\ expired' = expired \cup {c}
+                /\ UNCHANGED <<queue, batch, mutex, dropped, stopped, stopCh, flushed, pc, pidx, wret, wtmp, hx, hres, hs, err, mon>>
 
-Fairness == /\ WF_vars(WStop \/ WDeq \/ WAppend \/ WDrainEmpty \/ WExpLock \/ WExpEnd)
+Next == \/ \E p \in Producers : PCall(p) \/ PCheck(p) \/ PEnq(p) \/ PRet(p)
+        \/ WStop \/ WTimer \/ WDeq \/ WAppend \/ WDrainEmpty \/ WExpLock \/ (\E o \in Outcomes : WExpEnd(o))
+        \/ \E f \in Flushers : FCall(f) \/ FCheck(f) \/ FEnq(f) \/ FWaitStop(f) \/ FWaitFlushed(f) \/ FWaitCtx(f)
+                               \/ HExpLock(f) \/ (\E o \in Outcomes : HExpEnd(f, o)) \/ FExpDone(f) \/ FExpCtx(f) \/ FRet(f)
+        \/ \E s \in Stoppers : SCall(s) \/ SSet(s) \/ SWait(s) \/ SCtx(s) \/ SOnceWait(s) \/ SRet(s)
+        \/ HClose \/ HWait
+        \/ \E c \in Callers : CtxExpire(c)
+
+Fairness == /\ WF_vars(WStop \/ WDeq \/ WAppend \/ WDrainEmpty \/ WExpLock \/ (\E o \in Outcomes : WExpEnd(o)))
             /\ \A p \in Producers : WF_vars(PCheck(p) \/ PEnq(p) \/ PRet(p))
-            /\ \A f \in Flushers : WF_vars(FCheck(f) \/ FEnq(f) \/ FWaitStop(f) \/ FWaitFlushed(f) \/ FExpLock(f) \/ FExpEnd(f) \/ FRet(f))
-            /\ \A s \in Stoppers : WF_vars(SSet(s) \/ SClose(s) \/ SWait(s) \/ SOnceWait(s) \/ SRet(s))
+            /\ \A f \in Flushers : WF_vars(FCheck(f) \/ FEnq(f) \/ FWaitStop(f) \/ FWaitFlushed(f) \/ FWaitCtx(f)
+                                           \/ FExpDone(f) \/ FExpCtx(f) \/ FRet(f))
+            /\ \A f \in Flushers : WF_vars(HExpLock(f) \/ (\E o \in Outcomes : HExpEnd(f, o)))
+            /\ \A s \in Stoppers : WF_vars(SSet(s) \/ SWait(s) \/ SCtx(s) \/ SOnceWait(s) \/ SRet(s))
+            /\ WF_vars(HClose \/ HWait)
 Spec == Init /\ [][Next]_vars
 FairSpec == Spec /\ Fairness
 
 (* ------------------------------------------------------------ properties *)
 NoDup == \A id \in Ids : mon.handed[id] <= 1
 BatchBound == Len(batch) <= MaxBatch
-(* Known deviations of the code, each reproduced on the real implementation (known_findings/C01.json):  *)
-(*  D1  ForceFlush that finds the processor stopped (or sees stopCh) returns nil although spans ended   *)
-(*      before it was called have not been handed over yet (or never will be, see D4).                  *)
-(*  D4  a span whose OnEnd passed the stopped check before Shutdown set the flag is enqueued after the  *)
-(*      drain finished: never exported, not counted as dropped; a later Shutdown call still returns nil.*)
-Contract == mon.bad \subseteq (IF AllowKnown THEN {"D1-flush-during-shutdown", "D4-enqueue-after-drain"} ELSE {})
+(* Known deviations of the code (the ones reproduced on the real implementation are listed in              *)
+(* known_findings/C01.json):                                                                                 *)
+(*  D1  ForceFlush that finds the processor stopped (or sees stopCh) returns nil although spans ended      *)
+(*      before it was called have not been handed over yet (or never will be, see D4).                     *)
+(*  D4  a span whose OnEnd passed the stopped check before Shutdown set the flag is enqueued after the     *)
+(*      drain finished, or (blocking mode, current shape) abandoned because stopCh is closed: never        *)
+(*      exported, not counted as dropped; a later Shutdown call still returns nil.                          *)
+(*  D5  Shutdown whose ctx expires returns ctx.Err() while the drain it started keeps running: spans are    *)
+(*      exported after that Shutdown returned, and a later Shutdown (sync.Once already done) returns nil   *)
+(*      at once, before the drain has handed the spans over.                                                *)
+(*  D6  ForceFlush whose ctx expires before the marker is enqueued still exports the current batch; if      *)
+(*      that export finishes first it returns nil without having waited for the spans queued before it.    *)
+(* D2/D3 (pre-ada0bc0: blocking sends that never return after the drain) are liveness defects: see Stuck.  *)
+KnownDeviations == {"D1-flush-during-shutdown", "D4-enqueue-after-drain", "D5-drain-outlives-expired-shutdown",
+                    "D6-flush-nil-without-marker"}
+Contract == mon.bad \subseteq (IF AllowKnown THEN KnownDeviations ELSE {})
+NoD1 == "D1-flush-during-shutdown" \notin mon.bad
+NoD4 == "D4-enqueue-after-drain" \notin mon.bad
+NoD5 == "D5-drain-outlives-expired-shutdown" \notin mon.bad
+NoD6 == "D6-flush-nil-without-marker" \notin mon.bad
 DroppedCounted == dropped = Cardinality(mon.droppedIds)
 MutexOK == (mutex = "none") = (mon.inflight = <<>>)
+(* hook-level consistency: a span is accounted for at most one way *)
+Accounting == /\ mon.droppedIds \cap mon.abandonedIds = {}
+              /\ \A id \in mon.droppedIds \cup mon.abandonedIds \cup mon.ignoredIds : mon.handed[id] = 0
+              /\ (mon.abandonedIds # {} => Blocking /\ mon.sdCalled)
+              /\ mon.abandonedIds \subseteq mon.raced \cup {<<p, pidx[p]>> : p \in Producers}
 AllDone == /\ \A p \in Producers : pc[p] = "idle" /\ pidx[p] > SpansPer
-           /\ \A f \in Flushers : pc[f] = "done"
+           /\ \A f \in Flushers : pc[f] = "done" /\ hx[f] \in {"none", "done"}
            /\ \A s \in Stoppers : pc[s] = "done"
-(* D2 (blocking mode): a producer that passed the stopped check can block forever once the worker is gone *)
+           /\ hs = "done"
+(* nothing blocks forever: a state without successor is one where every call has returned and every     *)
+(* background goroutine has finished (violated by the pre-ada0bc0 shape: D2, D3)                        *)
 Stuck == (~ENABLED Next) => AllDone
 (* every call that was made eventually returns (calls themselves are the environment's choice) *)
 Termination == /\ \A p \in Producers : (pc[p] = "check") ~> (pc[p] = "idle")
                /\ \A f \in Flushers : (pc[f] = "check") ~> (pc[f] = "done")
+               /\ \A f \in Flushers : (hx[f] = "lock") ~> (hx[f] = "done")
                /\ \A s \in Stoppers : (pc[s] \in {"set", "oncewait"}) ~> (pc[s] = "done")
-View == <<queue, batch, mutex, dropped, stopped, stopCh, flushed, pc, pidx, wret, wtmp, mon>>
+               /\ (hs = "close") ~> (hs = "done")
 =============================================================================
